@@ -224,8 +224,36 @@ pub fn snapshot(c: &Condition, ns: usize) -> Vec<u64> {
 
 // ---------------------------------------------------------------------------------------------
 
+/// An engine a task owns, or one frozen and shared (`Arc`) between threads (layer L2a).
+pub enum Eng {
+    Owned(Engine),
+    Shared(Arc<Engine>),
+}
+
+impl std::ops::Deref for Eng {
+    type Target = Engine;
+    fn deref(&self) -> &Engine {
+        match self {
+            Eng::Owned(e) => e,
+            Eng::Shared(a) => a,
+        }
+    }
+}
+
+impl Eng {
+    pub fn owned_mut(&mut self) -> Option<&mut Engine> {
+        match self {
+            Eng::Owned(e) => Some(e),
+            Eng::Shared(_) => None,
+        }
+    }
+    pub fn is_shared(&self) -> bool {
+        matches!(self, Eng::Shared(_))
+    }
+}
+
 pub struct EngineSlot {
-    pub eng: Engine,
+    pub eng: Eng,
     pub vs_id: Vec<u32>,
     pub voices: Vec<VoiceRef>,
     pub model: CondModel,
@@ -577,7 +605,7 @@ impl<'a> Sim<'a> {
                 let model = CondModel::fresh(&eng, voices.len());
                 let twin = if self.prop == Prop::C19 { Some(eng.clone()) } else { None };
                 let heavy = voices.iter().any(|v| !matches!(v, VoiceRef::Gen(_)));
-                self.engines[*e] = Some(EngineSlot { eng, vs_id: ids, voices: voices.clone(), model, twin, heavy });
+                self.engines[*e] = Some(EngineSlot { eng: Eng::Owned(eng), vs_id: ids, voices: voices.clone(), model, twin, heavy });
                 self.note(0x10 + *e as u64);
                 if matches!(self.prop, Prop::C20 | Prop::C19 | Prop::C03) {
                     // defaults of a freshly loaded engine
@@ -592,7 +620,7 @@ impl<'a> Sim<'a> {
                 }
                 let s = self.engines[*src].as_ref().unwrap();
                 self.stats.api_calls += 1;
-                let cl = guarded(|| s.eng.clone());
+                let cl = guarded(|| Engine::clone(&s.eng));
                 let cl = match cl {
                     Ok(c) => c,
                     Err(p) => return Err(self.viol("C03.clone", "clone-panicked", format!("Engine::clone panicked: {}", p.msg))),
@@ -600,7 +628,7 @@ impl<'a> Sim<'a> {
                 let ns = s.model.nstream();
                 let a = snapshot(&s.eng.condition, ns);
                 let b = snapshot(&cl.condition, ns);
-                let slot = EngineSlot { eng: cl, vs_id: s.vs_id.clone(), voices: s.voices.clone(), model: s.model.clone(), twin: s.twin.clone(), heavy: s.heavy };
+                let slot = EngineSlot { eng: Eng::Owned(cl), vs_id: s.vs_id.clone(), voices: s.voices.clone(), model: s.model.clone(), twin: s.twin.clone(), heavy: s.heavy };
                 self.engines[*dst] = Some(slot);
                 self.stats.probe("clone");
                 self.note(0x20 + (*src * 8 + *dst) as u64);
@@ -629,6 +657,10 @@ impl<'a> Sim<'a> {
                     self.stats.noop_ops += 1;
                     return Ok(());
                 };
+                if slot.eng.is_shared() {
+                    self.stats.noop_ops += 1;
+                    return Ok(()); // a frozen-shared engine is only ever used through &self
+                }
                 let ns = slot.model.nstream();
                 let idx_ok = match s {
                     Setter::Msd(i, _) | Setter::GvWeight(i, _) => *i < ns,
@@ -652,7 +684,7 @@ impl<'a> Sim<'a> {
                     Setter::HalfTone(f) => c.set_additional_half_tone(f),
                 };
                 let before = slot.model.clone();
-                let r = guarded(|| apply(&mut slot.eng.condition));
+                let r = guarded(|| apply(&mut slot.eng.owned_mut().unwrap().condition));
                 if let Some(t) = slot.twin.as_mut() {
                     let _ = guarded(|| apply(&mut t.condition));
                 }
@@ -691,6 +723,10 @@ impl<'a> Sim<'a> {
                     self.stats.noop_ops += 1;
                     return Ok(());
                 };
+                if slot.eng.is_shared() {
+                    self.stats.noop_ops += 1;
+                    return Ok(());
+                }
                 let ns = slot.model.nstream();
                 let ok_idx = match which {
                     Which::Dur => true,
@@ -722,7 +758,7 @@ impl<'a> Sim<'a> {
                     }
                     .map_err(|e| e.to_string())
                 };
-                let r = guarded(|| call(&mut slot.eng.condition));
+                let r = guarded(|| call(&mut slot.eng.owned_mut().unwrap().condition));
                 if valid {
                     match which {
                         Which::Dur => slot.model.wdur = w.clone(),
@@ -835,6 +871,24 @@ impl<'a> Sim<'a> {
                 Ok(())
             }
             Op::Finish { g } => self.op_finish(task, *g),
+            Op::Drain { g, max } => {
+                for _ in 0..*max {
+                    if self.gens.get(*g).and_then(|x| x.as_ref()).is_none() {
+                        break;
+                    }
+                    self.op_step(task, *g, 0)?;
+                    if self.prop != Prop::C03 {
+                        // other properties keep exhausted generators alive; stop once exhausted
+                        if let Some(gs) = self.gens[*g].as_ref() {
+                            if gs.cursor >= gs.frames {
+                                break;
+                            }
+                        }
+                    }
+                    crate::sched::yield_point(0);
+                }
+                Ok(())
+            }
             Op::DropGen { g } => {
                 if let Some(slot) = self.gens.get_mut(*g) {
                     if let Some(gs) = slot.take() {
